@@ -454,6 +454,8 @@ CHECKS = {
             C('surveyor', 'TestSurveyor', 'TraceSurveyor', n={'quick': 30, 'thorough': 400}, env={'VERIF_MIX': 'close'}),
             C('closereal', 'TestCloseReal', 'TraceLifecycle', trivial_len=3),
             T('MC_Handshaker', 'Handshaker.cfg', workers=4),
+            T('MC_Inproc', 'Inproc.cfg', workers=4),
+            C('inproc', 'TestInproc', 'TraceInproc', trivial_len=3, n={'quick': 60, 'thorough': 800}),
             C('handshaker', 'TestHandshaker', 'TraceHandshaker', trivial_len=3, n={'quick': 40, 'thorough': 600}),
         ] + [dict(R(p, e), env={'VERIF_RAW_PROTOS': p, 'VERIF_MIX': 'close'}, n={'quick': 15, 'thorough': 300},
                   tiers=('quick', 'thorough') if q else ('thorough',))
